@@ -13,7 +13,7 @@ def runSweep (payload : String) : String × String × String :=
     let tbl := if isStack then stackMethods else condMethods
     let outs := calls.map (fun call =>
       let name := ((words call).headD "")
-      match MethodInfo.find tbl name with
+      match MethodInfo.findOrAuto tbl (if isStack then "Stack" else "Condition") name with
       | none => s!"{name} UNKNOWN-METHOD"
       | some m =>
         if mode == "frozen" then
@@ -33,7 +33,11 @@ def runSweep (payload : String) : String × String × String :=
       else outs
     let outs := if mode == "queries" && recv.startsWith "K" then outs ++ ["tamper D0"] else outs
     let line := " ; ".intercalate outs
-    (line, line, "")
+    -- methods classified from the facts only: their zero result is not known to the table
+    let unknown := calls.filterMap (fun call =>
+      let name := ((words call).headD "")
+      if (MethodInfo.find tbl name).isNone then some s!"auto:{name}" else none)
+    (line, line, " ".intercalate unknown)
   | _ => ("BADCASE", "BADCASE", "")
 
 end Stackage.Driver
